@@ -224,6 +224,16 @@ func stableSign(a, b, c Point) Direction {
 	det := -e1.Cross(e2).Dot(op)
 	maxErr := detErrorMultiplier * math.Sqrt(e1.Norm2()*e2.Norm2())
 
+	// The error bound assumes that no intermediate result underflows. If the two
+	// edges are so short that the product of their squared lengths is below
+	// 2**-1000, the rounding errors of det (and of maxErr itself, which may
+	// underflow to zero) are no longer covered, so leave the decision to the
+	// exact computation.
+	const minNoUnderflowError = detErrorMultiplier * 0x1p-500
+	if maxErr < minNoUnderflowError {
+		return Indeterminate
+	}
+
 	// If the determinant isn't zero, within maxErr, we know definitively the point ordering.
 	if det > maxErr {
 		return CounterClockwise
